@@ -425,13 +425,13 @@ func checkUnreadByte(c *core.Ctx, p *load.Prog) {
 	sites := 0
 	for _, fd := range funcsOfFiles(p, pkg, "tokenize.go", "token_tree.go") {
 		has := containsCall(fd.Body, func(call *ast.CallExpr) bool { return isMethodCall(call, "tr", "unreadByte") })
-		if !has || fd.Name.Name == "unreadByte" {
+		if !has || apiRole(fd.Name.Name) == "unreadByte" {
 			continue
 		}
 		sites++
 		name := fd.Name.Name
 		pos := p.Pos(fd.Pos())
-		if name == "Next" || name == "next" {
+		if apiRole(name) == "Next" || apiRole(name) == "next" {
 			// findFirst may fail because the reader failed: then nothing can be unread
 			okGuard := false
 			info := pkg.TypesInfo
@@ -470,7 +470,7 @@ func checkUnreadByte(c *core.Ctx, p *load.Prog) {
 							notFound = true
 						}
 					case *ast.SelectorExpr:
-						if x.Sel.Name == "errs" {
+						if apiRole(x.Sel.Name) == "errs" {
 							errs = true
 						}
 					case *ast.CallExpr:
@@ -820,7 +820,7 @@ func checkErrorRecording(c *core.Ctx, p *load.Prog) {
 	recorders := map[types.Object]bool{}
 	for _, fd := range funcsOfFiles(p, pkg, "tokenize.go", "token_tree.go") {
 		obj := pkg.TypesInfo.Defs[fd.Name]
-		if obj == nil || fd.Body == nil || fd.Name.Name == "addError" {
+		if obj == nil || fd.Body == nil || apiRole(fd.Name.Name) == "addError" {
 			continue
 		}
 		params := map[types.Object]bool{}
@@ -842,7 +842,7 @@ func checkErrorRecording(c *core.Ctx, p *load.Prog) {
 			if !ok || len(call.Args) != 1 {
 				continue
 			}
-			if sel, ok := call.Fun.(*ast.SelectorExpr); !ok || sel.Sel.Name != "addError" {
+			if sel, ok := call.Fun.(*ast.SelectorExpr); !ok || apiRole(sel.Sel.Name) != "addError" {
 				continue
 			}
 			if id, ok := ast.Unparen(call.Args[0]).(*ast.Ident); ok && params[pkg.TypesInfo.ObjectOf(id)] {
@@ -1350,14 +1350,24 @@ func checkPushbackOwners(c *core.Ctx, p *load.Prog) {
 			}
 			for _, l := range as.Lhs {
 				sel, ok := ast.Unparen(l).(*ast.SelectorExpr)
-				if !ok || sel.Sel.Name != "keepNextToken" {
+				if !ok || apiRole(sel.Sel.Name) != "keepNextToken" {
 					continue
 				}
 				if t := info.TypeOf(sel.X); t == nil || !strings.HasSuffix(t.String(), ".tokenReader") {
 					continue
 				}
 				n++
-				_, ok = allowed[name]
+				// by role: tokenReader.<role of the method>; a parser function by its
+				// bare name, whether it is a function or a method of a parser value
+				key := name
+				if i := strings.LastIndex(name, "."); i >= 0 {
+					if strings.HasPrefix(name, "tokenReader.") {
+						key = "tokenReader." + apiRole(name[i+1:])
+					} else {
+						key = name[i+1:]
+					}
+				}
+				_, ok = allowed[key]
 				c.Check("R10", "the token push-back flag is written by "+name, p.Pos(as.Pos()), ok,
 					name+" writes tokenReader.keepNextToken: outside the tokenizer (and the one confirmed site in readUnion) clearing it throws away a token a callee pushed back — the definition that token starts is then skipped without an error")
 			}
